@@ -18,7 +18,9 @@ def RULE(tier):
             "add/rem(name?,addr?)/changeAddrAtName/changeNameAtAddr/clear with every (name, addr) pair of the small domains; "
             "state = the pair of mappings; the graph is closed (frontier empty). Invariants in every state: the two mappings "
             "are exact inverses and injective; a call that raised or returned False left both unchanged; a call that returned "
-            "True changed exactly what a dict-pair model says.")
+            "True changed exactly what a dict-pair model says. Plus every constructor call Namer(entries=[...]) with <= 3 entries over 16 "
+            "(name, addr) pairs (repeated names, shared addresses, empties): it raises exactly when adding the entries one by one is "
+            "rejected, else the mappings are the model's.")
 
 
 def EXHAUSTIVE(tier):
@@ -38,7 +40,37 @@ SEEDS = [(), (("a", "x"),), (("a", "x"), ("b", "y")), (("a", "x"), ("b", "y"), (
 
 
 def jobs(tier):
-    return [("seed", i) for i in range(len(SEEDS))]
+    return [("seed", i) for i in range(len(SEEDS))] + [("ctor", k) for k in range(4)]
+
+
+CTOR_PAIRS = [(n, a) for n in ("a", "b", "ab", "") for a in ("x", "y", "xy", "")]
+
+
+def check_ctor(entries):
+    """Namer(entries=[...]) is the same as adding the entries one by one: if one of the additions is rejected the constructor
+    raises; otherwise the two mappings are the model's and inverse to one another"""
+    fwd, rejected = {}, False
+    for n, a in entries:
+        res, fwd = model(fwd, ("add", n, a))
+        if res == "err":
+            rejected = True
+            break
+    try:
+        nm = naming.Namer(entries=[tuple(e) for e in entries])
+    except hioing.NamerError:
+        return [] if rejected else [("ctor:rejects-valid-entries", "Namer(entries=%r) raised NamerError, adding them one by one is fine" % (entries,))]
+    except Exception as ex:
+        return [("raises:%s:ctor" % type(ex).__name__, "Namer(entries=%r) raised %r" % (entries, ex))]
+    f, b = nm.addrByName, nm.nameByAddr
+    v = []
+    if {v_: k for k, v_ in f.items()} != b or len(set(f.values())) != len(f) or {v_: k for k, v_ in b.items()} != f:
+        v.append(("not-inverse:ctor", "Namer(entries=%r): addrByName=%r nameByAddr=%r" % (entries, f, b)))
+    if rejected:
+        v.append(("ctor:accepts-rejected-entry", "Namer(entries=%r) was built although adding the entries one by one is rejected; "
+                  "addrByName=%r" % (entries, f)))
+    elif f != fwd:
+        v.append(("content:ctor", "Namer(entries=%r): addrByName=%r, model %r" % (entries, f, fwd)))
+    return v
 
 
 def apply(nm, op):
@@ -143,12 +175,27 @@ def make_run(seed):
 
 def run_job(job, tier, seed):
     acc = Acc(job)
+    if job[0] == "ctor":
+        import itertools
+        cnt = 0
+        for n in (1, 2, 3):
+            for combo in itertools.product(range(len(CTOR_PAIRS)), repeat=n):
+                cnt += 1
+                if cnt % 4 != job[1]:
+                    continue
+                entries = [CTOR_PAIRS[i] for i in combo]
+                viols = check_ctor(entries)
+                acc.case(["ctor", list(combo)], "ok" if not viols else viols[0][0], viols) if (viols or cnt % 97 == 1) else acc.bulk(1, 1)
+        acc.r.obs.add(hash("ctor"))
+        return acc.result()
     run = make_run(SEEDS[job[1]])
     bfs(acc, run, lambda hist, key: OPS, maxdepth=12)
     return acc.result()
 
 
 def replay(job, hist):
+    if hist and hist[0] == "ctor":
+        return check_ctor([CTOR_PAIRS[int(i)] for i in hist[1]])
     run = make_run(SEEDS[tojob_int(job[1])])
     return run([tuple(x) for x in hist])[1]
 
